@@ -1,5 +1,5 @@
 SPEC = {
-    "lean_modules": ["AM.Props.C13", "AM.Props.C14"],
+    "lean_modules": ["AM.Props.C13", "AM.Props.C14", "AM.Props.C01", "AM.Props.C05", "AM.Props.C06Conc"],
     "theorems": [
         "AM.Ingest.putValue_identity",
         "AM.PutOrder.group_holds_stored_version", "AM.PutOrder.split_put_reorders",
@@ -15,6 +15,8 @@ SPEC = {
         "AM.Workers.Load.restart_holds_latest", "AM.Workers.Load.no_worker_step_while_loading",
         "AM.Workers.Load.initial_load_reorder", "AM.Workers.Load.initial_load_reorder_not_sequential",
         "AM.Workers.Load.final_is_last_submitted_false_for_concurrent_load",
+        # the group side of "applied in order": the group that holds the re-fired alert stays alive and keeps flushing
+        "AM.Group.flush_gap_le", "AM.Group.refire_survives_flush", "AM.GroupMap.no_orphan_live_group",
     ],
     "engines": [
         {"name": "workers", "pkg": "./workers", "search_cases": 10000},
@@ -25,6 +27,9 @@ SPEC = {
         # "every aggregation group holding that alert holds the most recently submitted version": no orphaned live group may keep
         # a superseded version notifying (C06's scheduled engine: maintenance racing the re-creation of a group)
         {"name": "groupsched", "pkg": "./groupsched", "search_cases": 3000, "quick_cases": 600, "only": ["no_orphan_live_group", "insert_lands"]},
+        # "a resolve-then-fire is never notified as resolved and dropped": a re-fire applied while the group's "resolved" notification is in flight
+        # stays in a live group that keeps flushing (the whole-system engine of C01/C05: real provider, dispatcher, pipeline, slow receivers)
+        {"name": "sys", "pkg": "./sys", "timeout_quick": 90, "search_cases": 6000, "only": ["flush_gap_le", "refire_survives_flush", "no_orphan_live_group", "flush_lists_all"]},
     ],
     "rule": "real mem.Alerts provider + dispatch.Dispatcher under synctest; the dispatcher's debug log line 'Received alert' "
             "(emitted by the ingestion worker between channel receive and group insert) is used as a yield point through a "
